@@ -1344,3 +1344,64 @@ func (p *Program) AssumeReach(fn *ssa.Function, target ssa.Instruction, assumeSu
 	}
 	return dfs(fn.Blocks[0], known{}, true)
 }
+
+// ---------- regions: a function together with the helpers its body was split into ----------
+
+// regionCall is a call found in fn or in a same-package helper reached from fn through static calls
+// (depth <= 3). bind maps the helper's parameters to the argument values at the (unique) call site it was
+// reached through, so a value used inside the helper can be traced back to a parameter of fn.
+type regionCall struct {
+	call ssa.CallInstruction
+	in   *ssa.Function
+	bind map[*ssa.Parameter]ssa.Value
+}
+
+func (p *Program) regionCalls(fn *ssa.Function) []regionCall {
+	var out []regionCall
+	seen := map[*ssa.Function]bool{}
+	var walk func(g *ssa.Function, bind map[*ssa.Parameter]ssa.Value, depth int)
+	walk = func(g *ssa.Function, bind map[*ssa.Parameter]ssa.Value, depth int) {
+		if seen[g] || depth > 3 {
+			return
+		}
+		seen[g] = true
+		for _, c := range allCalls(g) {
+			out = append(out, regionCall{c, g, bind})
+			h := c.Common().StaticCallee()
+			if h == nil || h.Blocks == nil || !p.InRepo(h) || h.Pkg != fn.Pkg || h == fn {
+				continue
+			}
+			nb := map[*ssa.Parameter]ssa.Value{}
+			for k, v := range bind {
+				nb[k] = v
+			}
+			for i, prm := range h.Params {
+				if i < len(c.Common().Args) {
+					nb[prm] = c.Common().Args[i]
+				}
+			}
+			walk(h, nb, depth+1)
+		}
+	}
+	walk(fn, map[*ssa.Parameter]ssa.Value{}, 0)
+	return out
+}
+
+// boundTo: v is target, or a helper parameter bound (transitively) to target.
+func boundTo(v ssa.Value, target ssa.Value, bind map[*ssa.Parameter]ssa.Value) bool {
+	for i := 0; i < 5; i++ {
+		if v == target {
+			return true
+		}
+		prm, ok := v.(*ssa.Parameter)
+		if !ok {
+			return false
+		}
+		nv, ok := bind[prm]
+		if !ok {
+			return false
+		}
+		v = nv
+	}
+	return false
+}
